@@ -6,8 +6,10 @@
 //    AS inside its AS resources (with no IP resources and no inheritance), and the CRL callback's
 //    verdict is honoured ... violating any one of them causes rejection."
 //
-// IpBlocks::contains_roa / AsBlocks::contains_asn are used through their contracts (unit res_sets /
-// chain_query, C03); the addresses of a ROA are an abstract sequence (decoded lazily by bcder).
+// IpBlocks::{is_empty, contains_roa} / AsBlocks::contains_asn (unit res_sets, C03) and
+// SignedObject::validate (unit sigobj_compose) are used through contract links (//@stub): the
+// requires/ensures text is taken from the proving unit; the addresses of a ROA are an abstract sequence
+// (decoded lazily by bcder).
 use vstd::prelude::*;
 use vstd::std_specs::cmp::*;
 use vstd::std_specs::convert::*;
@@ -71,40 +73,39 @@ impl<T> ResourcesChoice<T> {
     //@/spec
     //@end
 }
-/// opaque stand-in for IpBlocks (a SharedChain<IpBlock>; its set semantics are unit res_sets)
-#[verifier::external_body]
-pub struct IpBlocks { _o: u8 }
-/// opaque stand-in for AsBlocks (a SharedChain<AsBlock>)
-#[verifier::external_body]
-pub struct AsBlocks { _o: u8 }
-/// "some block of `blocks` contains the whole address range of `addr`" (abstract here; the meaning
-/// `exists block. block.min <= range.min && block.max >= range.max` is the contract of unit res_sets)
-pub uninterp spec fn contains_roa_spec(blocks: IpBlocks, addr: RoaIpAddress) -> bool;
-/// the chain of `blocks` has no block
-pub uninterp spec fn ip_blocks_empty(blocks: IpBlocks) -> bool;
-/// "`asn` lies in one of the blocks" (abstract; proved for Chain::contains_item in unit chain_query)
-pub uninterp spec fn contains_asn_spec(blocks: AsBlocks, asn: Asn) -> bool;
+// opaque IpBlocks / AsBlocks with the abstract views ip_set / as_set (the set denoted), ip_wf / as_wf
+// (canonical form), ip_len / as_len: the vocabulary of the contracts linked from unit res_sets
+//@include shared/resview_abstract.v.rs
+/// one block of the chain covers the closed interval [lo, hi] (abstract; defined in unit res_sets as
+/// `exists block. block.min <= lo && hi <= block.max`)
+pub uninterp spec fn ip_covers_range(b: IpBlocks, lo: int, hi: int) -> bool;
+/// first / last address of the range of a ROA prefix (`addr.prefix.range()`; abstract, as in unit res_sets)
+pub uninterp spec fn roa_min(a: RoaIpAddress) -> int;
+pub uninterp spec fn roa_max(a: RoaIpAddress) -> int;
+/// "some block of `blocks` contains the whole address range of `addr`"
+pub open spec fn contains_roa_spec(blocks: IpBlocks, addr: RoaIpAddress) -> bool {
+    ip_covers_range(blocks, roa_min(addr), roa_max(addr))
+}
+/// "`asn` lies in one of the blocks"
+pub open spec fn contains_asn_spec(blocks: AsBlocks, asn: Asn) -> bool {
+    as_set(blocks).contains(asn.0 as int)
+}
 impl IpBlocks {
-    /// ipres.rs IpBlocks::is_empty = SharedChain::is_empty; an empty chain covers nothing
-    /// (assumed here, belongs to unit res_sets)
-    #[verifier::external_body]
+    /// contract link: ipres.rs IpBlocks::is_empty, proved in unit res_sets (an empty chain covers nothing)
+    //@stub res_sets :: impl IpBlocks :: is_empty
     pub fn is_empty(&self) -> (r: bool)
-        ensures
-            r == ip_blocks_empty(*self),
-            r ==> forall|a: RoaIpAddress| !#[trigger] contains_roa_spec(*self, a),
-    { unimplemented!() }
-    /// ipres.rs:410 IpBlocks::contains_roa (assumed here, proved in unit res_sets)
-    #[verifier::external_body]
+    //@end
+    /// contract link: ipres.rs:410 IpBlocks::contains_roa, proved in unit res_sets
+    //@stub res_sets :: impl IpBlocks :: contains_roa
     pub fn contains_roa(&self, addr: &RoaIpAddress) -> (r: bool)
-        ensures r == contains_roa_spec(*self, *addr)
-    { unimplemented!() }
+    //@end
 }
 impl AsBlocks {
-    /// asres.rs:413 AsBlocks::contains_asn = Chain::contains_item (assumed here, proved in chain_query / res_sets)
-    #[verifier::external_body]
+    /// contract link: asres.rs:413 AsBlocks::contains_asn = Chain::contains_item, proved in unit res_sets
+    /// (on top of chain_query); requires the chain to be canonical
+    //@stub res_sets :: impl AsBlocks :: contains_asn
     pub fn contains_asn(&self, asn: Asn) -> (r: bool)
-        ensures r == contains_asn_spec(*self, asn)
-    { unimplemented!() }
+    //@end
 }
 //@item src/repository/resources/ipres.rs :: pub struct IpResources pubfields
 //@item src/repository/resources/asres.rs :: pub struct AsResources pubfields
@@ -236,20 +237,22 @@ impl ResourceCert {
 pub struct SignedObject { _o: u8 }
 /// the acceptance predicate of unit sigobj_compose (`accepted`): sid == SKI, digest == SHA-256(content),
 /// signature over the SET OF encoding verifies, EE certificate valid under the issuer (abstract here)
-pub uninterp spec fn accepted(o: SignedObject, issuer: ResourceCert, strict: bool, now: Time) -> Option<ResourceCert>;
-pub open spec fn outcome_is(r: Result<ResourceCert, ValidationError>, a: Option<ResourceCert>) -> bool {
-    match r {
-        Ok(rc) => a == Some(rc),
-        Err(_) => a is None,
-    }
-}
+pub uninterp spec fn accepted(o: SignedObject, issuer: ResourceCert, strict: bool, now: Time) -> bool;
+/// what decoding establishes about a signed object (abstract here; defined in unit sigobj_compose)
+pub uninterp spec fn wf(o: SignedObject) -> bool;
+/// the EE certificate carried by the object (`o.cert`; SignedObject is opaque here)
+pub uninterp spec fn ee_cert_of(o: SignedObject) -> Cert;
+/// C01 vocabulary, abstract here (defined in unit cert_compose): the three resource sets attached to rc
+/// are the ones c validly receives from issuer
+pub uninterp spec fn issued_resources(rc: ResourceCert, c: Cert, issuer: ResourceCert) -> bool;
+// `issued_result`, `rc_wf` (shared with unit cert_compose) and `outcome_is` (shared with unit sigobj_compose)
+//@include shared/cert_vocab.v.rs
+//@include shared/sigobj_vocab.v.rs
 impl SignedObject {
-    /// sigobj.rs SignedObject::validate: assumed here with exactly the postcondition proved in unit
-    /// sigobj_compose (the wf precondition of that unit is established by decoding)
-    #[verifier::external_body]
+    /// contract link: sigobj.rs SignedObject::validate, proved in unit sigobj_compose
+    //@stub sigobj_compose :: impl SignedObject :: validate
     pub fn validate(self, issuer: &ResourceCert, strict: bool) -> (r: Result<ResourceCert, ValidationError>)
-        ensures exists|now: Time| outcome_is(r, #[trigger] accepted(self, *issuer, strict, now))
-    { unimplemented!() }
+    //@end
 }
 
 // ================================================================================================
@@ -364,22 +367,27 @@ impl RouteOriginAttestation {
     //@end
 }
 
-/// outcome of Roa::process / Aspa::process given the verdict `a` of the signed-object acceptance
+/// outcome of Roa::process / Aspa::process given the verdict `acc` of the signed-object acceptance
 /// predicate, the callback and the resource check `covered` on the validated EE certificate
 pub open spec fn process_outcome<F: FnOnce(&Cert) -> Result<(), ValidationError>, C>(
-    r: Result<(ResourceCert, C), ValidationError>, content: C, check_crl: F, a: Option<ResourceCert>,
-    covered: spec_fn(ResourceCert) -> bool,
+    r: Result<(ResourceCert, C), ValidationError>, content: C, o: SignedObject, issuer: ResourceCert, check_crl: F,
+    acc: bool, covered: spec_fn(ResourceCert) -> bool,
 ) -> bool {
-    match a {
+    if !acc {
         // signed object not accepted: rejected
-        None => r is Err,
-        Some(rc) => match r {
-            // accepted: the callback said Ok on the EE certificate and the resources are covered
-            Ok((cert, c)) => cert == rc && c == content && check_crl.ensures((&rc.cert,), Ok(())) && covered(rc),
-            // rejected: the callback's error is returned, or the callback said Ok and the resources are not covered
-            Err(e) => check_crl.ensures((&rc.cert,), Err(e))
-                || (check_crl.ensures((&rc.cert,), Ok(())) && !covered(rc)),
-        },
+        r is Err
+    } else {
+        match r {
+            // accepted: the result is the EE certificate validated under the issuer, the callback said Ok
+            // on the EE certificate and the resources are covered
+            Ok((cert, c)) => issued_result(cert, ee_cert_of(o), issuer) && rc_wf(cert) && c == content
+                && check_crl.ensures((&ee_cert_of(o),), Ok(())) && covered(cert),
+            // rejected: the callback's error is returned, or the callback said Ok and the resources of the
+            // validated EE certificate are not covered
+            Err(e) => check_crl.ensures((&ee_cert_of(o),), Err(e))
+                || (check_crl.ensures((&ee_cert_of(o),), Ok(()))
+                    && exists|rc: ResourceCert| #[trigger] issued_result(rc, ee_cert_of(o), issuer) && rc_wf(rc) && !covered(rc)),
+        }
     }
 }
 
@@ -388,9 +396,10 @@ impl Roa {
     //@sigsub R12 "mut self" "self"
     //@spec
         requires
+            wf(self.signed), rc_wf(*issuer),
             forall|c: &Cert| #[trigger] check_crl.requires((c,)),
         ensures
-            exists|now: Time| process_outcome(r, self.content, check_crl,
+            exists|now: Time| process_outcome(r, self.content, self.signed, *issuer, check_crl,
                 #[trigger] accepted(self.signed, *issuer, strict, now),
                 |rc: ResourceCert| roa_covered(self.content, rc)),
     //@/spec
@@ -419,6 +428,10 @@ impl AsProviderAttestation {
     //@fn src/repository/aspa.rs :: impl AsProviderAttestation :: verify
     //@sigsub R12 "&mut self" "&self"
     //@spec
+        requires
+            // the validated AS resources are a canonical chain (postcondition of the validation that produced
+            // `cert`; precondition of the linked AsBlocks::contains_asn contract)
+            rc_wf(*cert),
         ensures
             r is Ok <==> aspa_covered(*self, *cert),
     //@/spec
@@ -429,9 +442,10 @@ impl Aspa {
     //@sigsub R12 "mut self" "self"
     //@spec
         requires
+            wf(self.signed), rc_wf(*issuer),
             forall|c: &Cert| #[trigger] check_crl.requires((c,)),
         ensures
-            exists|now: Time| process_outcome(r, self.content, check_crl,
+            exists|now: Time| process_outcome(r, self.content, self.signed, *issuer, check_crl,
                 #[trigger] accepted(self.signed, *issuer, strict, now),
                 |rc: ResourceCert| aspa_covered(self.content, rc)),
     //@/spec
@@ -450,14 +464,25 @@ proof fn lemma_uncovered_prefix_rejects(roa: RouteOriginAttestation, cert: Resou
 /// acceptance by `process` implies every condition; a rejecting callback or a failed resource check
 /// causes rejection
 proof fn lemma_process_exact<F: FnOnce(&Cert) -> Result<(), ValidationError>, C>(
-    r: Result<(ResourceCert, C), ValidationError>, content: C, check_crl: F, rc: ResourceCert,
+    r: Result<(ResourceCert, C), ValidationError>, content: C, o: SignedObject, issuer: ResourceCert, check_crl: F,
     covered: spec_fn(ResourceCert) -> bool)
-    requires process_outcome(r, content, check_crl, Some(rc), covered),
+    requires process_outcome(r, content, o, issuer, check_crl, true, covered),
     ensures
-        r is Ok ==> covered(rc) && check_crl.ensures((&rc.cert,), Ok(())),
-        !covered(rc) ==> r is Err,
-        !check_crl.ensures((&rc.cert,), Ok(())) ==> r is Err,
-        covered(rc) && (forall|e: ValidationError| !#[trigger] check_crl.ensures((&rc.cert,), Err(e))) ==> r is Ok,
+        r matches Ok((cert, c)) ==> covered(cert) && check_crl.ensures((&ee_cert_of(o),), Ok(()))
+            && issued_result(cert, ee_cert_of(o), issuer) && cert.cert == ee_cert_of(o),
+        // no validated EE certificate of this object under this issuer is covered: rejected
+        (forall|rc: ResourceCert| #[trigger] issued_result(rc, ee_cert_of(o), issuer) ==> !covered(rc)) ==> r is Err,
+        !check_crl.ensures((&ee_cert_of(o),), Ok(())) ==> r is Err,
+        // every one is covered and the callback cannot fail: accepted
+        (forall|rc: ResourceCert| #[trigger] issued_result(rc, ee_cert_of(o), issuer) ==> covered(rc))
+            && (forall|e: ValidationError| !#[trigger] check_crl.ensures((&ee_cert_of(o),), Err(e))) ==> r is Ok,
+{}
+/// a signed object that is not accepted is rejected whatever the callback and the resources say
+proof fn lemma_not_accepted_rejects<F: FnOnce(&Cert) -> Result<(), ValidationError>, C>(
+    r: Result<(ResourceCert, C), ValidationError>, content: C, o: SignedObject, issuer: ResourceCert, check_crl: F,
+    covered: spec_fn(ResourceCert) -> bool)
+    requires process_outcome(r, content, o, issuer, check_crl, false, covered),
+    ensures r is Err,
 {}
 
 /// vacuity guard: both sides of the ROA/ASPA predicates are inhabited
